@@ -2,6 +2,8 @@
 C09 / C10: control requests change statuses and nothing else.
 -/
 import OrqModel.Proofs.RequestFrame
+import OrqModel.Proofs.RerunFrame
+import OrqModel.Proofs.NextKeep
 import OrqModel.Model.Ops
 import OrqModel.Properties.Status
 import OrqModel.Properties.Next
@@ -101,5 +103,26 @@ theorem C04_history_no_offer_after_terminal (E : Evaluator) (ops : List Op) (hop
     rw [this] at h
     simp only [Prod.mk.injEq, Except.ok.injEq] at h
     exact h.1.symm
+
+/-- **C17**: a rerun request — accepted or rejected, whatever it names — publishes nothing, routes
+    nothing and records no decision: the context snapshots, the routes and the publication log are
+    exactly what they were, and every existing record keeps its identity, route, context list,
+    predecessors and decisions (what is re-executed gets *new* records) -/
+theorem C17_rerun_keeps_history (E : Evaluator) (reqs : List RerunReq) (c : Cond) :
+    (requestRerun E reqs c).2.st.contexts = c.st.contexts ∧ (requestRerun E reqs c).2.st.routes = c.st.routes ∧
+    (requestRerun E reqs c).2.st.pubLog = c.st.pubLog ∧
+    ∀ (i : Nat) (r : Rec), c.st.sequence[i]? = some r →
+      ∃ r', (requestRerun E reqs c).2.st.sequence[i]? = some r' ∧ r'.core = r.core ∧ r'.next = r.next := by
+  have hcr := (requestRerun_cr E reqs).run c
+  have hlog := (requestRerun_log E reqs).run c
+  have hext := (requestRerun_ext E reqs).run c
+  have hnx := (requestRerun_nxa E reqs).run c
+  refine ⟨hcr.1, hcr.2, hlog, ?_⟩
+  intro i r hr
+  obtain ⟨r', hr', hc⟩ := Ext.getElem_core hext hr
+  obtain ⟨r'', hr'', hn⟩ := hnx.keep i r hr
+  rw [hr'] at hr''
+  cases hr''
+  exact ⟨r', hr', hc, hn⟩
 
 end Orq
